@@ -14,7 +14,21 @@ import (
 // ---------------------------------------------------------------- file faults
 
 // FaultClasses are the file-write fault points of one update, in the order the update reaches them.
-var FaultClasses = []string{"tcpmaps", "front:crt", "front:host", "front:rootredir", "front:rootssl", "backmaps", "tcpcrt", "main"}
+var FaultClasses = []string{"tcpmaps", "front:crt", "front:host", "front:rootredir", "front:rootssl", "backmaps", "tcpcrt", "resp", "main"}
+
+// EffectiveFaults drops the faults that cannot be reached in the state: "resp" (the file of the
+// custom response 503, written by writeConfig before the main file) needs custom responses.
+// For the model a reached "resp" is the main file fault: writeConfig fails before writing it.
+func EffectiveFaults(faults []string, st State) []string {
+	var out []string
+	for _, f := range faults {
+		if f == "resp" && st.Resp%4 == 0 {
+			continue
+		}
+		out = append(out, f)
+	}
+	return out
+}
 
 var matchSuffixes = []string{"__exact", "__prefix", "__begin", "__regex"}
 
@@ -43,6 +57,8 @@ func (e *Env) faultPaths(class string, backs []string, ports []int) []string {
 		for _, p := range ports {
 			out = append(out, filepath.Join(e.CfgDir, fmt.Sprintf("crtlist_tcp_%d.list", p)))
 		}
+	case class == "resp":
+		out = append(out, filepath.Join(e.CfgDir, "errorfiles", "503.http"))
 	case class == "main":
 		out = append(out, filepath.Join(e.CfgDir, "haproxy.cfg"))
 	case strings.HasPrefix(class, "shard:"):
